@@ -8,6 +8,14 @@
 // A Go panic that escapes an API call is caught HERE and reported as GOPANIC:<api>:<text> - that is
 // a violation; if this process dies (fatal error, stack overflow, OOM kill) the parent sees a BEGIN
 // without its R line.
+//
+// A line may also have the form
+//
+//	@ <reps> <hex source> [<module name>=<hex source>]...
+//
+// the evaluation is then made <reps> times (whether threads of a script collide depends on the schedule), each under its
+// own 2 s context, and the named modules are written to a fresh directory that the evaluations import from (local
+// importer).  The result line reports the first evaluation's outcome, "reps:<n>" and any GOPANIC of a later one.
 package main
 
 import (
@@ -16,6 +24,8 @@ import (
 	"encoding/hex"
 	"fmt"
 	"os"
+	"path/filepath"
+	"strconv"
 	"strings"
 	"time"
 
@@ -72,11 +82,40 @@ func main() {
 	sc.Buffer(make([]byte, 1<<22), 1<<26)
 	n := 0
 	for sc.Scan() {
-		b, _ := hex.DecodeString(sc.Text())
+		text := sc.Text()
+		reps := 1
+		moddir := ""
+		if strings.HasPrefix(text, "@ ") {
+			f := strings.Fields(text)
+			if len(f) >= 3 {
+				reps, _ = strconv.Atoi(f[1])
+				text = f[2]
+				if len(f) > 3 {
+					moddir, _ = os.MkdirTemp("", "c03mods-")
+					for _, m := range f[3:] {
+						if i := strings.Index(m, "="); i > 0 {
+							mb, _ := hex.DecodeString(m[i+1:])
+							_ = os.WriteFile(filepath.Join(moddir, filepath.Base(m[:i])+".risor"), mb, 0o644)
+						}
+					}
+				}
+			}
+		}
+		if reps < 1 {
+			reps = 1
+		}
+		b, _ := hex.DecodeString(text)
 		src := string(b)
 		fmt.Fprintf(w, "BEGIN %d\n", n)
 		w.Flush()
 		var out []string
+		evalOpts := func(vos ros.OS) []risor.Option {
+			o := []risor.Option{risor.WithOS(vos), risor.WithConcurrency(), risor.WithoutGlobals(denied...)}
+			if moddir != "" {
+				o = append(o, risor.WithLocalImporter(moddir))
+			}
+			return o
+		}
 		ctx, cancel := context.WithTimeout(context.Background(), 2*time.Second)
 		var perr error
 		parsedOK := false
@@ -92,7 +131,8 @@ func main() {
 			out = append(out, "parse:OK")
 			guard("Program.String", &out, func() { _ = prog.String() })
 			guard("compiler.Compile", &out, func() {
-				if code, err := compiler.Compile(prog); err == nil {
+				// for the host-call route: the code as the embedding API compiles it (the default globals are known names)
+				if code, err := compiler.Compile(prog, risor.NewConfig(evalOpts(ros.NewVirtualOS(ctx))...).CompilerOpts()...); err == nil {
 					compiled = code
 				}
 				if _, err := compiler.Compile(prog); err != nil {
@@ -112,7 +152,7 @@ func main() {
 		if parsedOK {
 			guard("risor.Eval", &out, func() {
 				vos := ros.NewVirtualOS(ctx)
-				res, err := risor.Eval(ctx, src, risor.WithOS(vos), risor.WithConcurrency(), risor.WithoutGlobals(denied...))
+				res, err := risor.Eval(ctx, src, evalOpts(vos)...)
 				if err != nil {
 					out = append(out, "eval:ERR:"+errClass(err.Error()))
 					guard("eval error.Error", &out, func() { _ = err.Error() })
@@ -143,6 +183,20 @@ func main() {
 				}
 			})
 		}
+		if parsedOK && reps > 1 {
+			// the same evaluation again and again: only that it returns is looked at
+			for r := 1; r < reps; r++ {
+				rctx, rcancel := context.WithTimeout(context.Background(), 2*time.Second)
+				bad := guard("risor.Eval", &out, func() {
+					_, _ = risor.Eval(rctx, src, evalOpts(ros.NewVirtualOS(rctx))...)
+				})
+				rcancel()
+				if bad {
+					break
+				}
+			}
+			out = append(out, fmt.Sprintf("reps:%d", reps))
+		}
 		if compiled != nil {
 			// the host calls into the compiled code by name: every global the program declares (whether or not it ever
 			// got a value, whether or not it is a function) and a name it does not have
@@ -152,17 +206,22 @@ func main() {
 			}
 			names = append(names, "no_such_name")
 			for _, name := range names {
+				cctx, ccancel := context.WithTimeout(context.Background(), 2*time.Second)
 				guard("risor.Call", &out, func() {
-					vos := ros.NewVirtualOS(ctx)
-					_, err := risor.Call(ctx, compiled, name, nil, risor.WithOS(vos), risor.WithConcurrency(), risor.WithoutGlobals(denied...))
+					vos := ros.NewVirtualOS(cctx)
+					_, err := risor.Call(cctx, compiled, name, nil, evalOpts(vos)...)
 					if err != nil {
 						guard("call error.Error", &out, func() { _ = err.Error() })
 					}
 				})
+				ccancel()
 			}
 			out = append(out, fmt.Sprintf("call:%d", len(names)))
 		}
 		cancel()
+		if moddir != "" {
+			_ = os.RemoveAll(moddir)
+		}
 		fmt.Fprintf(w, "R %d %s\n", n, strings.Join(out, " "))
 		w.Flush()
 		n++
